@@ -374,6 +374,41 @@ def run(tape, scenario, want_c11=False):
             started.append((gi, sg, gr))
             await asyncio.sleep([0, 1e-3, 5e-3][tape.draw("c18/stagger", 3)])
         await asyncio.sleep(0.06 + 0.01 * tape.draw("c18/runtime", 6))
+        if started and not violations and tape.chance("c18/resize-and-restart", 20):
+            # a group is stopped, one of its terminals gets another process-data size (its
+            # PDO assignment was rewritten), and the same group object is started again
+            gi, sg, gr = tape.pick("c18/restarted-group", started)
+            own = [k for k in gr["members"] if not specs[k]["aero"]
+                   and sum(1 for _, _, g2 in started if k in g2["members"]) == 1]
+            if own:
+                k = tape.pick("c18/resized-terminal", own)
+                sg.task.cancel()
+                await asyncio.wait([sg.task], timeout=1.0)
+                for what, off in (("in", 24), ("out", 16)):
+                    if specs[k][f"{what}_sz"]:
+                        new = 1 + tape.draw(f"c18/new-{what}-size", 30)
+                        specs[k][f"{what}_sz"] = new
+                        setattr(sims[k], f"{what}_sz", new)
+                        setattr(terms[k], f"pdo_{what}_sz", new)
+                        struct.pack_into("<H", sims[k].mem, 0x800 + off + 2, new)
+                sims[k].refresh_inputs()
+                world.count("c18/terminal-resized-between-two-starts")
+                try:
+                    sg.start()
+                except OverflowError:
+                    started.remove((gi, sg, gr))
+                except Exception as e:
+                    if parallel and ec.fmmu_lock_file.base_addr >= (1 << 31) - 0x2000:
+                        world.count("c18/logical-address-space-exhausted")
+                        started.remove((gi, sg, gr))
+                        e = None
+                    if e is not None:
+                        viol("group-start-raised", f"group {gi}, second start: "
+                             f"{type(e).__name__}: {e}", exception=type(e).__name__)
+                        started.remove((gi, sg, gr))
+                else:
+                    cycles_of[gi] = 0
+                    await asyncio.sleep(0.05)
         # logical windows of different groups never overlap
         windows = []
         for gi, sg, gr in started:
